@@ -1,6 +1,302 @@
 /-
-  C15 — overhang handling (property theorems; under construction)
+  C15 — overhang handling never removes direct seats and levels minimally.
+  Property theorems only.  Model: VotelibModel/Overhang.lean (core.py L474-734, L284-346); the proportional
+  evaluator is a parameter `ev : PropEval`; the instance `haEval div` is the C01 model of HighestAverages
+  (VotelibModel/HighestAverages.lean) with the divisors regenerated from divisor.py.
+
+  Reading (DESIGN 7/C15).  `prop` = the proportional distribution of the baseline house `n` (no previous
+  gains); the proportional tier = the keys of `prop`; `floors = lowestAllowed prop prev` maps every tier key to
+  `max(direct seats, initial proportional share)`; `drop = nonpropDrop floors prev` = direct seats held by
+  parties outside the tier.  "The distribution of `h` seats is adequate" = the evaluator answers for `h` seats
+  and gives every tier key at least its floor (`Adequate`).
 -/
-import VotelibModel.Overhang
+import VotelibProofs.Lemmas.OverhangTerm
+import Mathlib.Algebra.Order.Archimedean.Basic
 namespace VL.C15
+open VL VL.OH
+
+/-- no party holds more direct seats than its proportional share -/
+def NoOverhang (prop : Dist) (prev : Seats) : Prop := ∀ p ∈ prev, p.2 ≤ distGet prop (.cand p.1)
+
+/-- the proportional distribution of `h` seats gives every tier key at least its floor -/
+def Adequate (ev : PropEval) (votes : Votes) (caps : Seats) (floors : Dist) (h : Nat) : Prop :=
+  ∃ r, ev votes h [] caps = .ok r ∧ MeetsFloors r floors
+
+/-! ### AllowOverhang -/
+
+/-- **Allowed overhang.**  The adjustment is the number of overhang seats: Σ over the parties with direct seats of
+    `max(direct − proportional, 0)` (truncated subtraction on `Nat`). -/
+theorem allow_adj_eq_overhang (ev : PropEval) (votes : Votes) (n : Nat) (prev caps : Seats) (adj : Nat)
+    (h : allowOverhang ev votes n prev caps = .ok adj) :
+    ∃ prop, ev votes n [] caps = .ok prop ∧
+      adj = (prev.map (fun p => p.2 - distGet prop (.cand p.1))).sum := by
+  unfold allowOverhang at h
+  cases hev : ev votes n [] caps with
+  | error e => rw [hev] at h; simp [bind, Except.bind] at h
+  | ok prop =>
+    rw [hev] at h
+    simp only [bind, Except.bind, pure, Except.pure, Except.ok.injEq] at h
+    exact ⟨prop, rfl, by rw [← h, allowAdj_eq]⟩
+
+/-- truncated subtraction is `max(a − b, 0)` -/
+theorem natSub_eq_max (a b : Nat) : ((a - b : Nat) : Int) = max ((a : Int) - (b : Int)) 0 := by omega
+
+/-- **Zero without overhang (AllowOverhang).**  The adjustment is zero exactly when no party holds more direct
+    seats than its proportional share. -/
+theorem allow_adj_zero_iff (ev : PropEval) (votes : Votes) (n : Nat) (prev caps : Seats) (adj : Nat)
+    (h : allowOverhang ev votes n prev caps = .ok adj) :
+    ∃ prop, ev votes n [] caps = .ok prop ∧ (adj = 0 ↔ NoOverhang prop prev) := by
+  obtain ⟨prop, hp, hadj⟩ := allow_adj_eq_overhang ev votes n prev caps adj h
+  refine ⟨prop, hp, ?_⟩
+  rw [hadj]
+  unfold NoOverhang
+  rw [List.sum_eq_zero_iff]
+  constructor
+  · intro hz p hp'
+    have := hz _ (List.mem_map.mpr ⟨p, hp', rfl⟩)
+    omega
+  · intro hno x hx
+    obtain ⟨p, hp', rfl⟩ := List.mem_map.mp hx
+    have := hno p hp'
+    omega
+
+/-! ### LevelOverhang -/
+
+/-- **Levelling is least (loop invariant).**  `LevelOverhang.calculate` returns `adj` such that either
+    * `adj = 0` and the baseline distribution itself meets the floors (no tier party has overhang), or
+    * `adj > 0`, the baseline distribution does not meet the floors, the proportional distribution of
+      `n − drop + adj` seats (the enlarged house minus the seats held outside the tier) is adequate, and for every
+      smaller positive enlargement `e` the evaluator answered and the distribution of `n − drop + e` seats is NOT
+      adequate.
+    The number of evaluator calls made by the loop is `adj ≤ fuel`. -/
+theorem level_is_least (ev : PropEval) (fuel : Nat) (votes : Votes) (n : Nat) (prev caps : Seats) (adj : Nat)
+    (h : levelOverhang ev fuel votes n prev caps = .ok adj) :
+    ∃ prop, ev votes n [] caps = .ok prop ∧
+      nonpropDrop (lowestAllowed prop prev) prev ≤ n ∧ adj ≤ fuel ∧
+      ((adj = 0 ∧ MeetsFloors prop (lowestAllowed prop prev)) ∨
+       (0 < adj ∧ ¬ MeetsFloors prop (lowestAllowed prop prev) ∧
+        Adequate ev votes caps (lowestAllowed prop prev) (n - nonpropDrop (lowestAllowed prop prev) prev + adj) ∧
+        ∀ e, 0 < e → e < adj →
+          ∃ r, ev votes (n - nonpropDrop (lowestAllowed prop prev) prev + e) [] caps = .ok r ∧
+            ¬ MeetsFloors r (lowestAllowed prop prev))) := by
+  unfold levelOverhang at h
+  cases hev : ev votes n [] caps with
+  | error e => rw [hev] at h; simp [bind, Except.bind] at h
+  | ok prop =>
+    rw [hev] at h
+    simp only [bind, Except.bind] at h
+    refine ⟨prop, rfl, ?_⟩
+    generalize hfl : lowestAllowed prop prev = floors at h ⊢
+    generalize hdr : nonpropDrop floors prev = drop at h ⊢
+    by_cases hnd : n < drop
+    · simp [hnd] at h
+    · simp only [hnd, ↓reduceIte] at h
+      cases hl : levelLoop (fun h => ev votes h [] caps) floors fuel (n - drop) prop with
+      | error e => rw [hl] at h; simp at h
+      | ok H =>
+        rw [hl] at h
+        simp only [pure, Except.pure, Except.ok.injEq] at h
+        obtain ⟨h1, h2, h3, h4⟩ := levelLoop_spec _ _ _ _ _ _ hl
+        refine ⟨by omega, by omega, ?_⟩
+        rcases Nat.eq_or_lt_of_le h1 with heq | hlt
+        · left
+          exact ⟨by omega, (belowMin_false_iff _ _).mp (h3 heq.symm)⟩
+        · right
+          obtain ⟨hb, ⟨r, hr, hrb⟩, hmid⟩ := h4 hlt
+          have hH : n - drop + adj = H := by omega
+          refine ⟨by omega, ?_, ⟨r, by rw [hH]; exact hr, (belowMin_false_iff _ _).mp hrb⟩, ?_⟩
+          · intro hm
+            rw [(belowMin_false_iff _ _).mpr hm] at hb
+            exact Bool.false_ne_true hb
+          · intro e he1 he2
+            obtain ⟨r', hr', hrb'⟩ := hmid (n - drop + e) (by omega) (by omega)
+            refine ⟨r', hr', ?_⟩
+            intro hm
+            rw [(belowMin_false_iff _ _).mpr hm] at hrb'
+            exact Bool.false_ne_true hrb'
+
+/-- the baseline distribution meets the floors iff no tier key holds more direct seats than its share -/
+theorem meets_lowest_iff (prop : Dist) (prev : Seats) (hnd : (prop.map (·.1)).Nodup) :
+    MeetsFloors prop (lowestAllowed prop prev) ↔ ∀ p ∈ prop, prevGetKey prev p.1 ≤ p.2 := by
+  unfold MeetsFloors lowestAllowed
+  constructor
+  · intro hm p hp
+    have := hm (p.1, max (prevGetKey prev p.1) p.2) (List.mem_map.mpr ⟨p, hp, rfl⟩)
+    simp only at this
+    rw [distGet_of_mem hnd hp] at this
+    omega
+  · intro hall q hq
+    obtain ⟨p, hp, rfl⟩ := List.mem_map.mp hq
+    simp only
+    rw [distGet_of_mem hnd hp]
+    have := hall p hp
+    omega
+
+/-- **Zero without overhang (LevelOverhang).**  The adjustment is zero exactly when no key of the proportional tier
+    holds more direct seats than its proportional share; in particular (second part) it is zero when NO party at all
+    holds more direct seats than its proportional share. -/
+theorem adj_zero_iff_no_overhang (ev : PropEval) (fuel : Nat) (votes : Votes) (n : Nat) (prev caps : Seats) (adj : Nat)
+    (h : levelOverhang ev fuel votes n prev caps = .ok adj) :
+    ∃ prop, ev votes n [] caps = .ok prop ∧ ((prop.map (·.1)).Nodup →
+      ((adj = 0 ↔ ∀ p ∈ prop, prevGetKey prev p.1 ≤ p.2) ∧ (NoOverhang prop prev → adj = 0))) := by
+  obtain ⟨prop, hp, _, _, hcases⟩ := level_is_least ev fuel votes n prev caps adj h
+  refine ⟨prop, hp, fun hnd => ?_⟩
+  have hiff : adj = 0 ↔ ∀ p ∈ prop, prevGetKey prev p.1 ≤ p.2 := by
+    rw [← meets_lowest_iff prop prev hnd]
+    constructor
+    · intro h0
+      rcases hcases with ⟨_, hm⟩ | ⟨hpos, _⟩
+      · exact hm
+      · omega
+    · intro hm
+      rcases hcases with ⟨h0, _⟩ | ⟨_, hnm, _⟩
+      · exact h0
+      · exact absurd hm hnm
+  refine ⟨hiff, fun hno => hiff.mpr ?_⟩
+  intro p hp'
+  cases hk : p.1 with
+  | tie T => simp [prevGetKey]
+  | cand c =>
+    simp only [prevGetKey]
+    unfold natLookup
+    cases hf : prev.find? (fun q => q.1 = c) with
+    | none => simp
+    | some q =>
+      have hq := List.mem_of_find?_eq_some hf
+      have hqc := List.find?_some hf
+      simp only [decide_eq_true_eq] at hqc
+      have := hno q hq
+      rw [hqc, ← hk, distGet_of_mem hnd hp'] at this
+      exact this
+
+/-! ### direct seats are kept; the house grows by exactly the adjustment -/
+
+/-- **Direct seats are never removed.**  In the two-stage system `MultistageDistributor([first stage yielding the
+    direct seats, AdjustedSeatCount(calculator, evaluator)])` every party ends with at least its direct seats —
+    for every calculator and every evaluator: results are only ever added to the previous gains. -/
+theorem keeps_direct_seats (calcr : Calc) (ev : PropEval) (v1 v2 : Votes) (n : Nat) (direct caps : Seats)
+    (elected : Dist)
+    (h : multistage [(mockStage direct, v1), (adjustedSeatCount calcr ev, v2)] n [] caps = .ok elected) :
+    ∀ p ∈ direct, p.2 ≤ distGet elected (.cand p.1) := by
+  intro p hp
+  obtain ⟨prev0, res0, _, hres0, hrest⟩ := multistage_cons_ok _ _ _ _ _ _ _ h
+  simp only [mockStage, Except.ok.injEq] at hres0
+  subst hres0
+  refine Nat.le_trans ?_ (multistage_mono _ n caps _ _ hrest (.cand p.1))
+  exact distGet_addDist_mem [] (seatsToDist direct) (Key.cand p.1, p.2)
+    (List.mem_map.mpr ⟨p, hp, rfl⟩)
+
+/-- an evaluator *fills the house*: whenever it answers and the previous gains fit, previous gains plus the seats it
+    awards (individually or through a reported `Tie`) are exactly `n_seats` -/
+def Fills (ev : PropEval) (votes : Votes) : Prop :=
+  ∀ n prev r, ev votes n prev [] = .ok r → sumSeats prev ≤ n → sumSeats prev + sumDist r = n
+
+/-- **House size, any evaluator that fills the house.** -/
+theorem house_grows_by_adj_of_fills (calcr : Calc) (ev : PropEval) (votes : Votes) (n : Nat) (prev : Seats)
+    (adj : Nat) (res : Dist) (hf : Fills ev votes) (hsum : sumSeats prev ≤ n)
+    (hc : calcr votes n prev [] = .ok adj) (hr : adjustedSeatCount calcr ev votes n prev [] = .ok res) :
+    sumSeats prev + sumDist res = n + adj := by
+  unfold adjustedSeatCount at hr
+  rw [hc] at hr
+  simp only [bind, Except.bind] at hr
+  exact hf (n + adj) prev res hr (by omega)
+
+/-- highest averages with a built-in divisor, non-negative votes and distinct parties fills the house -/
+theorem haEval_fills (div : Nat → Rat) (hd : (∀ k, 0 < div k) ∧ StrictMono div) (votes : Votes)
+    (hv : ∀ p ∈ votes, 0 ≤ p.2) (hn : (keys votes).Nodup) : Fills (haEval div) votes := by
+  intro n prev r hr hsum
+  unfold haEval highestAverages at hr
+  split at hr
+  · simp [Except.map] at hr
+  · rename_i hpool
+    simp only [Except.map, Except.ok.injEq] at hr
+    subst hr
+    rw [sumDist_normDist]
+    exact ha_fills { div := div, votes := votes, n := n, prev := prev, caps := [] }
+      (C01.cfgOK_of_divisor _ hd hv hn) rfl hsum hpool
+
+/-- **The house grows by exactly the reported adjustment** (highest averages as distributing evaluator, any
+    calculator): direct seats plus all seats awarded by `AdjustedSeatCount.evaluate` are `n + adjustment`; the
+    adjustment is a natural number, i.e. never negative. -/
+theorem house_grows_by_adj (div : Nat → Rat) (hd : (∀ k, 0 < div k) ∧ StrictMono div) (votes : Votes)
+    (hv : ∀ p ∈ votes, 0 ≤ p.2) (hn : (keys votes).Nodup) (calcr : Calc) (n : Nat) (prev : Seats)
+    (adj : Nat) (res : Dist) (hsum : sumSeats prev ≤ n)
+    (hc : calcr votes n prev [] = .ok adj)
+    (hr : adjustedSeatCount calcr (haEval div) votes n prev [] = .ok res) :
+    sumSeats prev + sumDist res = n + adj :=
+  house_grows_by_adj_of_fills calcr (haEval div) votes n prev adj res (haEval_fills div hd votes hv hn) hsum hc hr
+
+/-- the result keys of highest averages are pairwise distinct -/
+theorem haEval_nodup (div : Nat → Rat) (votes : Votes) (n : Nat) (prev caps : Seats) (r : Dist)
+    (h : haEval div votes n prev caps = .ok r) : (r.map (·.1)).Nodup := by
+  unfold haEval highestAverages at h
+  split at h
+  · simp [Except.map] at h
+  · simp only [Except.map, Except.ok.injEq] at h
+    subst h
+    exact haResult_norm_nodup _
+
+/-! ### termination of the levelling loop -/
+
+open Gen.Divisor in
+theorem d_hondt_unbounded : ∀ B : Rat, ∃ k, B < d_hondt k := by
+  intro B
+  obtain ⟨k, hk⟩ := exists_nat_gt B
+  refine ⟨k, lt_trans hk ?_⟩
+  unfold d_hondt
+  exact_mod_cast Nat.lt_succ_self k
+
+open Gen.Divisor in
+theorem sainte_lague_unbounded : ∀ B : Rat, ∃ k, B < sainte_lague k := by
+  intro B
+  obtain ⟨k, hk⟩ := exists_nat_gt B
+  refine ⟨k, lt_of_lt_of_le hk ?_⟩
+  unfold sainte_lague
+  have : k ≤ 2 * k + 1 := by omega
+  exact_mod_cast this
+
+/-- **Levelling terminates.**  Highest averages with positive, strictly increasing, unbounded divisors
+    (D'Hondt, Sainte-Laguë: `d_hondt_unbounded`, `sainte_lague_unbounded`), non-negative votes, and a baseline
+    result whose keys are parties with positive votes (no `Tie` key): there is a fuel bound `F` from which on the
+    loop always returns an adjustment — i.e. the unfuelled Python loop terminates. -/
+theorem level_terminates (div : Nat → Rat) (hd : (∀ k, 0 < div k) ∧ StrictMono div)
+    (hunb : ∀ B : Rat, ∃ k, B < div k) (votes : Votes) (hv : ∀ p ∈ votes, 0 ≤ p.2) (hn : (keys votes).Nodup)
+    (n : Nat) (prev : Seats) (prop : Dist)
+    (hp : haEval div votes n [] [] = .ok prop)
+    (htier : ∀ p ∈ prop, ∃ c, p.1 = .cand c ∧ 0 < getD votes c 0)
+    (hdrop : nonpropDrop (lowestAllowed prop prev) prev ≤ n) :
+    ∃ F, ∀ fuel, F ≤ fuel → ∃ adj, levelOverhang (haEval div) fuel votes n prev [] = .ok adj := by
+  have hne : votes ≠ [] := by
+    intro h0
+    subst h0
+    simp [haEval, highestAverages, haInit, Except.map] at hp
+  have hfl : ∀ p ∈ lowestAllowed prop prev, ∃ c, p.1 = .cand c ∧ 0 < getD votes c 0 := by
+    intro p hp'
+    unfold lowestAllowed at hp'
+    obtain ⟨q, hq, rfl⟩ := List.mem_map.mp hp'
+    exact htier q hq
+  obtain ⟨H0, hH0⟩ := ha_adequate_eventually div hd hunb votes hv hn _ hfl
+  generalize hfloors : lowestAllowed prop prev = floors at hdrop hH0
+  generalize hdr : nonpropDrop floors prev = drop at hdrop
+  refine ⟨max H0 (n - drop + 1) - (n - drop), fun fuel hfuel => ?_⟩
+  have hev : ∀ k, 0 < k → (fun h => haEval div votes h [] []) k = .ok (normDist (haResult (cfgH div votes k))) :=
+    fun k hk => haEval_cfgH div hd.1 votes hne k hk
+  obtain ⟨H, hH⟩ := levelLoop_terminates (fun h => haEval div votes h [] []) floors
+    (max H0 (n - drop + 1) - (n - drop)) (n - drop) prop fuel hfuel
+    (fun k hk1 _ => ⟨_, hev k (by omega)⟩)
+    (fun h0 => by have := le_max_right H0 (n - drop + 1); omega)
+    (fun _ => by
+      have h1 := le_max_right H0 (n - drop + 1)
+      have h2 := le_max_left H0 (n - drop + 1)
+      have heq : n - drop + (max H0 (n - drop + 1) - (n - drop)) = max H0 (n - drop + 1) := by omega
+      rw [heq]
+      exact ⟨_, hev _ (by omega), (belowMin_false_iff _ _).mpr (hH0 _ h2)⟩)
+  refine ⟨H + drop - n, ?_⟩
+  unfold levelOverhang
+  rw [hp]
+  simp only [bind, Except.bind, hfloors, hdr]
+  rw [if_neg (by omega)]
+  simp only [hH]
+  rfl
+
 end VL.C15
